@@ -194,7 +194,7 @@ class T1Case(TagCase):
         self.old = bytes(old)
         self.uid, self.hr, self.beyond = uid, hr, beyond
         import random
-        fill = random.Random(filler_seed).randbytes(layout.size)
+        fill = random.Random(filler_seed).randbytes(layout.physical)
         self.image = layout.image(self.old, lambda a: fill[a], uid=uid)
 
     def silicon(self, image=None):
@@ -221,7 +221,7 @@ class T1Case(TagCase):
 
     def describe(self):
         lay = self.layout
-        return {"type": "T1T", "size": lay.size, "hr": self.hr.hex(),
+        return {"type": "T1T", "size": lay.size, "physical": lay.physical, "hr": self.hr.hex(),
                 "prefix": [list(t) for t in lay.prefix_tlvs], "ndef_offset": lay.ndef_offset,
                 "reserved": sorted(lay.reserved - lay.base_reserved)[:40], "old_len": len(self.old),
                 "terminator": lay.terminator}
@@ -238,6 +238,11 @@ def gen_t1(sim, big=False, want_old=None, product_layout=False):
     boundary = not product_layout and sim.chance("t1.boundary", 0.12)
     if boundary:
         size, hr = 296, b"\x12\x30"
+    physical = size
+    if not product_layout and not boundary and size in (120, 512) and sim.chance("t1.declared_small", 0.12):
+        # the capability container declares a data area that ends before the chip's memory does
+        size = sim.pick("t1.declared", [48, 64, 96] if size == 120 else [128, 256])
+        sim.probe("t1.declared_smaller_than_physical")
     dynamic = size > 120
     n_null = sim.weighted("t1.nnull", [5, 2, 2, 1])
     n_lock = sim.weighted("t1.nlock", [4, 3, 1]) if dynamic else sim.weighted("t1.nlock", [6, 1])
@@ -298,7 +303,9 @@ def gen_t1(sim, big=False, want_old=None, product_layout=False):
             prefix.append(("mem", a, sz))
             sim.probe("t1.reserved." + where)
     terminator = not sim.chance("t1.noterm", 0.15)
-    lay = t1t.T1TLayout(size, prefix, terminator=terminator)
+    lay = t1t.T1TLayout(size, prefix, terminator=terminator, physical=physical)
+    if lay.ndef_offset + 8 > size:
+        lay = t1t.T1TLayout(physical, prefix, terminator=terminator)
     assert lay.header_ok(2 if tight else 4), "generator produced reserved bytes on TLV headers"
     cap = lay.true_capacity()
     if want_old is None:
